@@ -110,19 +110,135 @@ func runFraming(c *Ctx) error {
 	for i := 0; i < n; i++ {
 		cases = append(cases, framingRandom(c, i))
 	}
+	// accumulated size: ONE message of 1-3 MiB (only a single frame is bounded by MaxMessageSize)
+	// assembled from many partial sends / buffered writes / by the typed layer, position-dependent
+	// content, received through each receive API
+	modes := []string{"partials", "writes", "typed"}
+	if c.Thorough() {
+		for enc := 0; enc < 2; enc++ {
+			for mi := range modes {
+				for api := 0; api < 3; api++ {
+					cases = append(cases, framingBig(c, enc == 1, modes[mi], api, MiB+c.Rng.Intn(2*MiB)))
+				}
+			}
+		}
+	} else {
+		r := int(c.Seed)
+		cases = append(cases, framingBig(c, r%2 == 1, "partials", 0, MiB+MiB/4+c.Rng.Intn(MiB/2)))
+		cases = append(cases, framingBig(c, r%2 == 0, "writes", 1, MiB+MiB/4+c.Rng.Intn(MiB/2)))
+		cases = append(cases, framingBig(c, true, "typed", 2, 2*MiB+c.Rng.Intn(MiB/2)))
+		cases = append(cases, framingBig(c, c.Rng.Intn(2) == 1, modes[(r+1)%3], (r+2)%3, MiB+c.Rng.Intn(MiB)))
+	}
 	return diffBatch(c, "stream", cases, nil)
 }
 
-func framingFinish(c *Ctx, w *sworld, label string, sent [][]byte, nontrivial bool) Case {
+// bigChunks cuts `total` bytes into many pieces: a run of small ones first (boundary-weighted around
+// the 4 KiB flush threshold), then pieces of 100 KiB .. maxChunk, with a few small ones in between.
+func bigChunks(c *Ctx, total, maxChunk int) []int {
+	var out []int
+	left := total
+	take := func(n int) {
+		if n > left {
+			n = left
+		}
+		if n > 0 {
+			out = append(out, n)
+			left -= n
+		}
+	}
+	for i := 0; i < 12+c.Rng.Intn(12); i++ {
+		take(1 + pickSize(c, false)%6000)
+	}
+	for left > 0 {
+		switch c.Rng.Intn(6) {
+		case 0:
+			take(1 + c.Rng.Intn(5000))
+		case 1:
+			take(maxChunk)
+		default:
+			take(100*1024 + c.Rng.Intn(maxChunk-100*1024))
+		}
+	}
+	return out
+}
+
+func framingBig(c *Ctx, enc bool, mode string, api int, total int) Case {
+	w := framingSetup(c, enc)
+	if !enc && c.Rng.Intn(4) != 0 {
+		// a plaintext session freezes its handshake digests once established (security layer)
+		w.finalize("A")
+		w.finalize("B")
+	}
+	seed := c.Rng.Intn(1 << 20)
+	msg := patBytes(seed, 0, total)
+	w.pat = &patState{seed: seed, msg: msg}
+	ok := true
+	switch mode {
+	case "partials":
+		ch := bigChunks(c, total, MiB-40)
+		off := 0
+		for i, n := range ch {
+			fl := 0
+			if i == len(ch)-1 {
+				fl = 1
+			}
+			if w.send("A", fl, msg[off:off+n]) != nil {
+				ok = false
+				break
+			}
+			off += n
+		}
+	case "writes":
+		w.start("A")
+		ch := bigChunks(c, total, 512*1024)
+		off := 0
+		for _, n := range ch {
+			if w.write("A", msg[off:off+n]) != nil {
+				ok = false
+				break
+			}
+			off += n
+		}
+		if ok && w.end("A") != nil {
+			ok = false
+		}
+	default:
+		if w.typedBytes("A", msg) != nil {
+			ok = false
+		}
+	}
+	w.pat = nil
+	c.Count("kind:big:" + mode + ":" + modeOf(w) + ":" + []string{"recvc", "incr", "mrest"}[api])
+	var sent [][]byte
+	if ok {
+		sent = append(sent, msg)
+	} else {
+		// "of any sizes the sender accepts": every piece here is far below the frame limit, and a message
+		// has no size limit of its own
+		c.Violate(Violation{Property: "C01", Key: "C01:sender-rejects-big-message:" + mode + ":" + modeOf(w), What: "the sender refused a piece of a multi-MiB message although every frame is within the frame limit",
+			Ops: append([]string{}, w.ops...), Expected: "accepted", Observed: w.real[len(w.real)-1]})
+	}
+	return framingFinish(c, w, fmt.Sprintf("big %s total=%d enc=%v api=%d", mode, total, enc, api), sent, true, api)
+}
+
+func framingFinish(c *Ctx, w *sworld, label string, sent [][]byte, nontrivial bool, forceAPI ...int) Case {
 	// receive everything the sender's application sent; property oracle = exact equality
 	api := c.Rng.Intn(3)
+	if len(forceAPI) > 0 {
+		api = forceAPI[0]
+		if api == 2 {
+			api = 3 // typed layer: Message.GetRemainingBytes
+		}
+	}
 	for i, m := range sent {
 		if w.dead {
 			break
 		}
 		var got []byte
 		var err error
-		if api == 0 || (api == 2 && i%2 == 0) {
+		if api == 3 {
+			got, err = w.mrest("B")
+		} else if api == 0 || (api == 2 && i%2 == 0) {
 			got, err = w.recvc("B")
 		} else {
 			err = w.startread("B")
